@@ -30,6 +30,7 @@ import (
 
 	"github.com/rulego/streamsql"
 	"github.com/rulego/streamsql/functions"
+	"github.com/rulego/streamsql/logger"
 	"github.com/rulego/streamsql/types"
 )
 
@@ -172,7 +173,9 @@ func c18New(kind, strat string, chanSize, poolCap, workers int, blockTimeout tim
 	pc.OverflowConfig.ExpansionConfig.TriggerThreshold = 0.5
 	pc.WorkerConfig.SinkPoolSize = poolCap
 	pc.WorkerConfig.SinkWorkerCount = workers
-	s := streamsql.New(streamsql.WithDiscardLog(), streamsql.WithCustomPerformance(pc))
+	// per-instance discard logger: WithDiscardLog() writes the package-global default logger without synchronisation,
+	// which the race detector reports as soon as two instances are constructed concurrently (not C18's subject)
+	s := streamsql.New(streamsql.WithLogger(logger.NewDiscardLogger()), streamsql.WithCustomPerformance(pc))
 	if err := s.Execute(c18Kinds[kind]); err != nil {
 		return nil, fmt.Errorf("%s: %v", kind, err)
 	}
@@ -248,7 +251,7 @@ func runC18Script(sc c18Script, countGoroutines bool) (string, error) {
 	for i, op := range sc.ops {
 		b0 := atomic.LoadInt64(&t.begins)
 		r := "-"
-		ok := callWithin(12*time.Second, func() {
+		ok := callWithin(8*time.Second, func() {
 			switch op[0] {
 			case 'e':
 				v, _ := strconv.Atoi(op[1:])
@@ -280,7 +283,7 @@ func runC18Script(sc c18Script, countGoroutines bool) (string, error) {
 		t.settle()
 		obs = append(obs, fmt.Sprintf("%d:%s", atomic.LoadInt64(&t.begins)-b0, r))
 	}
-	callWithin(12*time.Second, func() { s.Stop() })
+	callWithin(8*time.Second, func() { s.Stop() })
 	if countGoroutines {
 		obs = append(obs, fmt.Sprintf("gr:%d:%d", base, waitGoroutines(base, 2*time.Second)))
 	} else {
@@ -447,7 +450,7 @@ func runC18Random(kind, strat string, seed uint64) (string, error) {
 			t.stop(s, j+1)
 		})
 	}
-	if !callWithin(15*time.Second, wg.Wait) {
+	if !callWithin(8*time.Second, wg.Wait) {
 		t.add("to")
 	} else {
 		// after every Stop returned: the instance must stay inert
@@ -463,7 +466,7 @@ func runC18Random(kind, strat string, seed uint64) (string, error) {
 			t.stop(s, 9)
 			time.Sleep(time.Duration(rng.Intn(3)) * time.Millisecond)
 		}
-		if !callWithin(15*time.Second, post) {
+		if !callWithin(8*time.Second, post) {
 			t.add("to")
 		}
 	}
@@ -501,7 +504,7 @@ func runC18Loser() (string, error) {
 	time.Sleep(20 * time.Millisecond)
 	t.stop(s, 2)
 	close(release)
-	if !callWithin(10*time.Second, wg.Wait) {
+	if !callWithin(8*time.Second, wg.Wait) {
 		t.add("to")
 	}
 	t.mu.Lock()
@@ -509,8 +512,17 @@ func runC18Loser() (string, error) {
 	return "C18 L # " + strings.Join(t.ev, " "), nil
 }
 
+// after this many cases in which a call did not return the run stops generating cases: every further one would
+// again wait for the harness's patience, and the failing inputs are already on record
+const c18MaxStuck = 3
+
+func c18IsStuck(line string) bool {
+	return strings.Contains(line, " to ") || strings.HasSuffix(line, " to")
+}
+
 func runC18(tier string, seed uint64, o *Out) error {
 	rng := NewRNG(seed)
+	stuck := 0
 	strategies := []string{"drop", "block", "expand"}
 	scriptKinds := []string{"direct", "analytic", "counting1", "global1"}
 	randKinds := []string{"direct", "analytic", "cep", "tumbling", "sliding", "session", "tumblingE", "slidingE", "sessionE", "counting", "global"}
@@ -534,14 +546,21 @@ func runC18(tier string, seed uint64, o *Out) error {
 	errs := make([]error, len(scripts))
 	sem := make(chan struct{}, 12)
 	var wg sync.WaitGroup
+	var stuckPar int64
 	for i := range scripts {
 		i := i
+		if atomic.LoadInt64(&stuckPar) >= c18MaxStuck {
+			break
+		}
 		wg.Add(1)
 		sem <- struct{}{}
 		go func() {
 			defer wg.Done()
 			defer func() { <-sem }()
 			lines[i], errs[i] = runC18Script(scripts[i], false)
+			if c18IsStuck(lines[i]) {
+				atomic.AddInt64(&stuckPar, 1)
+			}
 		}()
 	}
 	wg.Wait()
@@ -549,8 +568,16 @@ func runC18(tier string, seed uint64, o *Out) error {
 		if errs[i] != nil {
 			return errs[i]
 		}
+		if lines[i] == "" {
+			continue
+		}
 		o.Line("%s", lines[i])
 		o.Count("script/" + scripts[i].kind + "/" + scripts[i].strat)
+	}
+	stuck = int(stuckPar)
+	if stuck >= c18MaxStuck {
+		o.Count("aborted_after_stuck_cases")
+		return nil
 	}
 	time.Sleep(50 * time.Millisecond)
 	// (2) a few scripts alone, with goroutine accounting
@@ -562,6 +589,13 @@ func runC18(tier string, seed uint64, o *Out) error {
 		}
 		o.Line("%s", l)
 		o.Count("script_gr/" + sc.kind)
+		if c18IsStuck(l) {
+			stuck++
+		}
+		if stuck >= c18MaxStuck {
+			o.Count("aborted_after_stuck_cases")
+			return nil
+		}
 	}
 	// (3) concurrent runs, one at a time (goroutine accounting is global)
 	for _, k := range randKinds {
@@ -573,6 +607,13 @@ func runC18(tier string, seed uint64, o *Out) error {
 				}
 				o.Line("%s", l)
 				o.Count("concurrent/" + k + "/" + st)
+				if c18IsStuck(l) || strings.Contains(l, ":5000") || strings.Contains(l, ":5001") || strings.Contains(l, ":5002") {
+					stuck++
+				}
+				if stuck >= c18MaxStuck {
+					o.Count("aborted_after_stuck_cases")
+					return nil
+				}
 			}
 		}
 	}
